@@ -33,17 +33,17 @@ Print nrules.
 """
 
 
-def run_static(res):
+def run_static(res, pid="C10"):
     """Close-vs-register atomicity on the lock skeletons regenerated from /repo (translator go2race)."""
     import os, re
     from .c11 import gen_raceprog
-    gd, _rp = gen_raceprog("C10")
-    obl = core.check_gen_obligations("C10", gd, ATOM_IMPORTS, ATOM_OBLIGATIONS, timeout=600)
+    gd, _rp = gen_raceprog(pid)
+    obl = core.check_gen_obligations(pid, gd, ATOM_IMPORTS, ATOM_OBLIGATIONS, timeout=600)
     failed = [(n, e) for n, ok, e in obl if not ok]
     res.coverage["discharged"] += len(obl) - len(failed)
     res.coverage["theorems"] += [n for n, _, _ in obl]
     res.coverage["generated_obligations"] = {n: ok for n, ok, _ in obl}
-    p = os.path.join(core.WORK, "C10", "atom_report.v")
+    p = os.path.join(core.WORK, pid, "atom_report.v")
     open(p, "w").write(ATOM_REPORT)
     rc, out, err, dt = core.coqc_file(p, extra=["-Q", gd, "MVgen"])
     found = 0
@@ -79,6 +79,10 @@ def run(res):
            gocmd="l2core", prelude="Definition step_rec := kstep_rec.\n",
            check_fn="(fun h => kcheck_from %s %s kinit 0 h)" % (IDFIX, DIALFIX),
            ambig_fn="(fun h => kambiguous_from %s %s kinit 0 h)" % (IDFIX, DIALFIX))
+    # the transports' side of "Close affects only that object and leaves nothing behind": stalled handshakes end at Close,
+    # registration racing Close, a second listener's Close leaves the first reachable (harness/cmd/stream)
+    from .. import stream
+    res.coverage["transport_close_scenarios"] = stream.run(res, "C10")
     for k in ("discharged", "theorems", "generated_obligations", "register_after_check_rules"):
         if k in cov0:
             res.coverage[k] = cov0[k]
